@@ -989,6 +989,17 @@ func (d *duration) Apply(key string, value interface{}, ctx *rdf.ParsingContext)
 						).Op(":=").Id(codegen.This()).Assert(jen.String()),
 						jen.Id("ok"),
 					).Block(
+						jen.If(
+							jen.Len(jen.Id("s")).Op("==").Lit(0).Op("||").Id("s").Op("==").Lit("-"),
+						).Block(
+							jen.Return(
+								jen.Lit(0),
+								jen.Qual("fmt", "Errorf").Call(
+									jen.Lit("%q malformed: empty xsd:duration"),
+									jen.Id("s"),
+								),
+							),
+						),
 						jen.Id("isNeg").Op(":=").False(),
 						jen.If(
 							jen.Id("s").Index(jen.Lit(0)).Op("==").LitRune('-'),
